@@ -820,6 +820,7 @@ def create_binary_event_files(event_file,
                 os.remove(os.path.join(path_name, file_name))
 
     number_events = 0
+    job_errors = []
 
     with multiprocessing.Pool(n_jobs) as pool:
 
@@ -830,7 +831,10 @@ def create_binary_event_files(event_file,
                 number_events += result  # pylint: disable=undefined-variable
                 pool.close()
             else:
-                raise error
+                # raising here would kill the result handler thread of the
+                # pool; stop submitting and raise after the pool is joined
+                job_errors.append(error)
+                pool.close()
 
         def _callback(result):
             nonlocal number_events
@@ -884,6 +888,8 @@ def create_binary_event_files(event_file,
         pool.join()
         if verbose:
             print("finished all jobs.\n")
+    if job_errors:
+        raise job_errors[0]
     return number_events
 
 # for example code see function test_preprocess in file
